@@ -68,6 +68,17 @@ func unsupported_() []*Unsupported {
 				return &FileSpec{Name: "p.proto", Msgs: []*M{ok(), msg("Deep", nil, fld("Y", TString), dufld("Bad")), msg("Inner", nil, mfld("Items", "Deep").rep(), fld("X", TString)),
 					msg("U", nil, mfld("Sub", "Inner").nonnull(), fld("Str", TString))}}
 			}})
+	// an embedded message whose only field is the unmappable one: excluded, the embed contributes no field at all
+	us = append(us,
+		&Unsupported{Name: "U-embed-only-bad-by-key", Cfg: noTime("U", "Ok"), Broken: []string{"U"}, Intact: []string{"Ok"}, Exclude: []string{"Stamp.At"},
+			File: func() *FileSpec {
+				return &FileSpec{Name: "p.proto", Msgs: []*M{ok(), msg("Stamp", nil, tsfld("At")), msg("U", nil, fld("Str", TString), mfld("Stamp", "Stamp").embed())}}
+			}},
+		&Unsupported{Name: "U-embed-only-bad-by-path", Cfg: noTime("U", "Ok"), Broken: []string{"U"}, Intact: []string{"Ok"}, Exclude: []string{"U.Holder.At"},
+			File: func() *FileSpec {
+				return &FileSpec{Name: "p.proto", Msgs: []*M{ok(), msg("Stamp", nil, tsfld("At")), msg("Hold", nil, mfld("Stamp", "Stamp").nonnull().embed(), fld("X", TString)),
+					msg("U", nil, fld("Str", TString), mfld("Holder", "Hold"))}}
+			}})
 	// two selected types reach the same nested message with the unmappable field; the field is excluded
 	// by path below one of them only: that one is generated whole, the other not at all
 	shared := func() *FileSpec {
